@@ -376,8 +376,44 @@ def c06(cfg, events, case=None):
                 v = redirects_evaluated(cfg, op, api.name, evs, activation=api.name in ("construct", "enter"))
                 if v:
                     return v
-    # a request made through a control records the calling state as its origin
-    return provenance(cfg, events, case) if case else None
+    # a request made through a control records the calling state as its origin; the request shown is the one waiting
+    if not case:
+        return None
+    return provenance(cfg, events, case) or latest_request(cfg, events, case) or shown_request_is_waiting(cfg, events, case)
+
+
+def shown_request_is_waiting(cfg, events, case):
+    """"the request currently waiting to be processed": what enter() / exit() / reenter() / query() — callbacks that
+    cannot request anything — are shown at the end of one call is still what the first callback of the instance's
+    next update() / react() / query() is shown, when nothing in between made, processed or discarded a request"""
+    ops = case_ops(case)
+    carried = {}        # inst -> (request string, description of the callback that showed it)
+    transparent = ("save", "succeed", "fail", "planAppend", "planClear", "planRemove", "attachLogger")
+    for (inst, op), evs in ops_of(events):
+        if op < 0 or op >= len(ops):
+            continue
+        w = ops[op]
+        rejected = any(e.kind == "rejected" for e in evs)
+        cbs = [e for e in evs if e.kind == "cb" and e.f.get("req") not in (None, "~")]
+        if inst in carried and cbs and not rejected and w[0] in ("update", "react", "query") and cbs[0].method in PHASE_FAM.get(w[0], ("query",)):
+            r, who = carried[inst]
+            if cbs[0].f["req"] != r:
+                return "%s was shown %s as the request waiting to be processed; nothing processed, replaced or discarded it, yet the next callback sees %s: %s" % (
+                    who, r, cbs[0].f["req"], cbs[0].raw)
+        if w[0] in transparent or rejected:
+            continue
+        carried.pop(inst, None)
+        if w[0] == "copy":
+            continue
+        last = None
+        for e in evs:
+            if e.kind == "cb":
+                last = e
+            elif e.kind == "do" and e.text.split()[0] in ("changeTo", "changeWith"):
+                last = None
+        if last is not None and (last.method in LIFE or last.method == "query") and last.f.get("req") not in (None, "~") and w[0] not in ("exit", "destroy"):
+            carried[inst] = (last.f["req"], "%s() of state %d in op%d (%s)" % (last.method, last.sid, op, w[0]))
+    return None
 
 
 def c11(cfg, events, case=None):
